@@ -89,6 +89,9 @@ class Contract:
         return self.qual.split(".", 1)[1] if self.qual.startswith("thejoker.") else self.qual
 
 
+KNOWN_PARAMS = {}      # qualname -> parameter names mentioned by the verified contracts of that function (filled by jvc/main.py)
+
+
 class Ctx:
     def __init__(self, prop, lib, contracts=None, bounded=None):
         self.prop = prop
@@ -1351,6 +1354,14 @@ class Executor:
                 extra_kw = extra_kw.set(k, v)
         if fa.kwarg is not None:
             bound[fa.kwarg.arg] = extra_kw
+        # modularity guard: the callee is verified for the parameters its contracts mention (one they do not mention is verified at its default
+        # only, jvc/verify.py); a call that passes such a parameter explicitly is outside what was verified
+        known = KNOWN_PARAMS.get(c.qual)
+        if known is not None:
+            for n_ in bound:
+                if n_ not in known and n_ not in ("self", "cls") and not (fa.kwarg is not None and n_ == fa.kwarg.arg) \
+                        and not (fa.vararg is not None and n_ == fa.vararg.arg):
+                    raise Unsupported(f"call at line {node.lineno} passes '{n_}', which no verified contract of {c.qual} mentions")
         defaults = fa.defaults
         for n_, d in zip(names[len(names) - len(defaults):], defaults):
             if n_ not in bound:
